@@ -35,31 +35,9 @@ INSTR = {'IRead': 0, 'IAlloc': 1, 'IAdd': 2, 'IFinalize': 3, 'IPublish': 4, 'IRe
 
 def program():
     """The abstract program and the line ranges of its statements, from the source."""
-    text = translators.tr_threadprog()
-    instrs = [x.strip() for x in text.split('[')[1].split(']')[0].split(';')]
-    tree = translators.module_ast(os.path.join(translators.REPO_SRC, '__init__.py'))
-    fn = translators.find_func(translators.find_class(tree, 'Licensing'), 'get_advanced_tokenizer')
-    body = list(fn.body)
-    if body and isinstance(body[0], ast.Expr) and isinstance(body[0].value, ast.Constant):
-        body = body[1:]
-    # map every top-level statement to the instructions it stands for (an assignment may be two, an alias none)
-    ranges = []
-    k = 0
-    for st in body:
-        n = 0
-        if isinstance(st, ast.If):
-            n = 1
-        elif isinstance(st, ast.Assign):
-            v = st.value
-            if isinstance(v, ast.Call) and getattr(v.func, 'id', '') == 'AdvancedTokenizer':
-                n = 1 + sum(1 for tg in st.targets if translators.is_self_attr(tg, 'advanced_tokenizer'))
-            elif translators.is_self_attr(st.targets[0], 'advanced_tokenizer'):
-                n = 1
-        elif isinstance(st, (ast.For, ast.Return)) or isinstance(st, ast.Expr):
-            n = 1
-        ranges.append((st.lineno, st.end_lineno, instrs[k:k + n]))
-        k += n
-    assert k == len(instrs), (k, instrs)
+    items = translators.thread_items(os.path.join(translators.REPO_SRC, '__init__.py'))
+    instrs = [i for _, _, ins in items for i in ins]
+    ranges = [(a, b, ins) for a, b, ins in items]
     return instrs, ranges
 
 
@@ -72,10 +50,11 @@ class Logger(object):
         self.log = []
 
     def stmt_of(self, lineno):
+        found = None
         for i, (a, b, ins) in enumerate(self.ranges):
             if a <= lineno <= b:
-                return i
-        return None
+                found = i
+        return found
 
     def __call__(self, tid, frame, event):
         if frame.f_code.co_name != 'get_advanced_tokenizer':
@@ -160,10 +139,9 @@ def run(rep, tier, seed):
     try:
         instrs, ranges = program()
     except translators.Unsupported:
-        # the statement order of get_advanced_tokenizer cannot be read (the tie is reported broken by main.py): without the
-        # abstract program there is no trace to validate, and a construct the translator does not know (a lock, say) may block a
-        # thread under the baton-passing scheduler, so no schedule is explored
-        rep.count('schedules_not_explored_program_unreadable')
+        # the statement order of get_advanced_tokenizer cannot be read (the tie is reported broken by main.py): there is no
+        # trace to validate, but the oracle still judges executions
+        unreadable_program(rep, tier)
         return
     prog = [INSTR[i] for i in instrs]
     cases = []
@@ -269,6 +247,46 @@ def run(rep, tier, seed):
                               'events %r, model trace %r, final threads %r, shape_safe %r' % (schedule, ev[:14], trace[:14], threads, safe))
 
 
+def unreadable_program(rep, tier):
+    """Oracle-only exploration when the abstract program cannot be read: every k-th single-preemption schedule of two first
+    calls, and two preemptions around the end of get_advanced_tokenizer (the first thread is stopped inside it, the second runs
+    until it returns or blocks, the first goes on for j lines, the second again)."""
+    T, text = SETUPS[0]
+    want = expected_for(T, text)
+    mark = {}
+
+    def on_line(tid, frame, event):
+        if tid == 0 and event == 'return' and frame.f_code.co_name == 'get_advanced_tokenizer' and 'end' not in mark:
+            mark['end'] = True
+            mark['at'] = run0.lines[0]
+    le = imp()
+    L = make_licensing(T)
+    run0 = sched.Run([lambda: str(L.parse(text)), lambda: str(L.parse(text))], [(0, None), (1, None)])
+    # wrap the tracer callback to learn where the first call leaves get_advanced_tokenizer
+    run0.on_line = on_line
+    run0.go()
+    n0, end = run0.lines[0], mark.get('at', run0.lines[0])
+    schedules = []
+    for first in (0, 1):
+        for k in range(1, n0 + 1, 5 if tier == 'thorough' else 11):
+            schedules.append([(first, k), (1 - first, None), (first, None)])
+    for k in sorted({max(1, end // 3), max(1, end // 2), max(1, end - 40)}):
+        for j in range(max(1, end - k - (60 if tier == 'thorough' else 25)), end - k + 4):
+            schedules.append([(0, k), (1, None), (0, j), (1, None), (0, None)])
+    for schedule in schedules:
+        results, log, lines, errs, dl = execute(T, text, schedule, 2, [])
+        rep.case((repr(T), text, repr(schedule), 'unreadable'), nontrivial=True, sample=None)
+        rep.count('schedules_without_trace')
+        bad = 'the execution did not terminate under the scheduler' if dl else None
+        for i, r in enumerate(results):
+            if outcome(r, errs[i]) != want:
+                bad = bad or 'thread %d: %r, alone: %r' % (i, outcome(r, errs[i]), want)
+        if bad:
+            rep.violations.append({'key': 'schedule', 'kind': 'schedule', 'table': T, 'text': text, 'schedule': schedule,
+                                   'threads': 2, 'extra': None, 'what': bad})
+            return
+
+
 def search(rep, tier, seed):
     """Called when the tie or the proof is broken and no failing schedule was found yet: nothing more to
     enumerate than run() already did on every single-preemption schedule."""
@@ -276,7 +294,10 @@ def search(rep, tier, seed):
 
 
 def replay(payload):
-    instrs, ranges = program()
+    try:
+        instrs, ranges = program()
+    except translators.Unsupported:
+        ranges = []
     T = [(k, a, e) for k, a, e in payload['table']]
     sc = [tuple(x) for x in payload['schedule']]
     kws = payload.get('kwargs')
